@@ -130,7 +130,7 @@ func specTargetDepth(tp uint32) int {
 //@ assume strings.Join iface
 //@ assume github.com/kelindar/binary.ToString iface
 
-//@ verify (Key).ValidateChannel pre=pre_ValidateChannel post=post_ValidateChannel_depth,post_ValidateChannel_plus,post_ValidateChannel_hash,post_ValidateChannel_complete props=C03
+//@ verify (Key).ValidateChannel pre=pre_ValidateChannel post=post_ValidateChannel_depth,post_ValidateChannel_plus,post_ValidateChannel_hash,post_ValidateChannel_complete,post_ValidateChannel_nobypass,post_ValidateChannel_legacy props=C03
 //@ loop (Key).ValidateChannel 0 inv inv_ValidateChannel_depth
 //@ loop (Key).ValidateChannel 1 inv inv_ValidateChannel_idx,inv_ValidateChannel_wc,inv_ValidateChannel modifies=parts
 func pre_ValidateChannel(k Key, ch *Channel) bool { return len(k) == 24 && ch != nil && len(ch.Query) >= 1 }
@@ -252,4 +252,19 @@ func inv_parseOptions_val(i, j, length int, text, key, val []byte, head0_i int) 
 	// scanning for '&': a non-empty key means the cursor has moved past it
 	return head0_i <= i && 0 <= i && i <= j && j <= length && length == len(text) && (len(key) == 0 || i > head0_i) &&
 		(len(val) == 0 || (i == j && j == length)) // a value is only set at '&' (which leaves the loop) or at the very end
+}
+
+// No way around the three conditions: a key WITH a bit path (every key SetTarget produces for a non-root target) is
+// accepted only through the level-by-level comparison - never on the strength of its hash alone ...
+func post_ValidateChannel_nobypass(k Key, ch *Channel, res0 bool) bool {
+	return !res0 || specTargetPath(k) == 0 || (vs.TraceFind("strings.Split") >= 0 && vs.TraceFind("strings.Join") >= 0)
+}
+
+// ... and a key WITHOUT one (issued before bit paths existed, or for the root target "#/") is accepted exactly when
+// its target hash is the root's or equals the request's first-level hash (the retro-compatibility rule)
+func post_ValidateChannel_legacy(k Key, ch *Channel, res0 bool) bool {
+	if specTargetPath(k) != 0 || len(ch.Channel) == 0 {
+		return true
+	}
+	return res0 == (specBE32(k, 16) == 1325880984 || specBE32(k, 16) == ch.Query[0])
 }
